@@ -156,8 +156,36 @@ def run_seq(seq, alive):
     return problems
 
 
+def spellings():
+    """the same directory given as str, bytes and pathlib.Path: str and Path are one watch, bytes is another"""
+    import pathlib
+    pr = []
+    obs = BaseObserver(ScriptedEmitter, timeout=0.05)
+    hs = [H("hs"), H("hb"), H("hp"), H("he")]
+    ws = obs.schedule(hs[0], "/p")
+    wb = obs.schedule(hs[1], b"/p")
+    wp = obs.schedule(hs[2], pathlib.Path("/p"))
+    we = obs.schedule(hs[3], "/p", event_filter=[])
+    if ws == wb or hash(ws) == hash(wb) and ws.key == wb.key:
+        pr.append("a str watch and a bytes watch of the same directory compare equal")
+    if ws != wp:
+        pr.append("a str watch and a pathlib.Path watch of the same directory differ")
+    if we == ws:
+        pr.append("a watch with an empty event filter equals the unfiltered watch")
+    if len(obs.emitters) != 3:
+        pr.append(f"{len(obs.emitters)} emitters for the three distinct watches str/Path, bytes, str+empty filter")
+    for e in obs.emitters:
+        if type(e.watch.path) is bytes and e.watch != wb:
+            pr.append("bytes emitter bound to a non-bytes watch")
+    obs.unschedule_all()
+    return pr
+
+
 def main():
     if REPLAY is not None:
+        if REPLAY.get("kind") == "spellings":
+            pr = spellings()
+            replay_result(bool(pr), pr[:3])
         pr = run_seq([tuple(o) for o in REPLAY["seq"]], REPLAY["alive"])
         replay_result(bool(pr), pr[:3])
     L = 3 if TIER == "quick" else 4
@@ -176,6 +204,10 @@ def main():
         pr = run_seq(seq, True)
         if pr:
             bat.fail("C13.registry-running", pr[0], {"seq": [list(o) for o in seq], "alive": True, "problems": pr[:3]}, "BaseObserver")
+    bat.case("spellings")
+    pr = spellings()
+    if pr:
+        bat.fail("C13.watch-identity", pr[0], {"kind": "spellings", "problems": pr[:3]}, "ObservedWatch")
     bat.finish()
 
 
